@@ -372,7 +372,7 @@ func manySegments(c *CaseCtx, class string) {
 func init() {
 	register(&Check{
 		ID: "C09", Level: "fault_enumeration",
-		NCases: func(t string) int { return tier(t, 64, 1600) },
+		NCases: func(t string) int { return tier(t, 64, 1000) },
 		Run: func(c *CaseCtx) {
 			if c.Case%16 == 7 {
 				manySegments(c, "many-segments")
@@ -397,7 +397,7 @@ func init() {
 				runAnything(c, false, "clean-close", true)
 			}
 		},
-		Rule: "directories produced only by the library, then opened with the real Open (oracle: no error, no panic): (a) 24 exactly-full-segment directories per case (3 index modes x RWMode x StartFileLoadingMode x last record with empty/non-empty value, sizes computed to the byte), reopened, rotated, reopened; " +
+		Rule: "[also: 1 case in 16 is a large-geometry history (segments of 9-330 KB: >1000 live records in one segment, or values of 1-69 KB around the 4 KiB and 64 KiB marks and with whole pages of zero bytes; Merge and reopen twice, compared with the model); crash images taken between the write of a root-index record by the transaction in flight and the first record of the next segment are continued (one per interrupted rotation)] directories produced only by the library, then opened with the real Open (oracle: no error, no panic): (a) 24 exactly-full-segment directories per case (3 index modes x RWMode x StartFileLoadingMode x last record with empty/non-empty value, sizes computed to the byte), reopened, rotated, reopened; " +
 			"(b) every process-crash and torn-write image of monitored workloads with failing transactions, bursts and reads of never-written buckets (same image construction as C10); (c) clean-close points of unconstrained histories with Merge calls, failed transactions, no-op operations and missing-bucket reads; " +
 			"non-trivial = >=20 images and a rotation / >=6 operation kinds; distinct by workload hash",
 		Assumptions: []string{"as C10 for the crash images"},
@@ -410,7 +410,7 @@ func init() {
 	})
 	register(&Check{
 		ID: "C08", Level: "exploration",
-		NCases: func(t string) int { return tier(t, 400, 15000) },
+		NCases: func(t string) int { return tier(t, 400, 6000) },
 		Run: func(c *CaseCtx) {
 			if c.Case%16 == 11 {
 				kind := []string{"kv", "set", "zset", "list"}[c.Rng.Intn(4)]
@@ -424,7 +424,7 @@ func init() {
 			}
 			runAnything(c, true, "anything", false)
 		},
-		Rule: "case = unconstrained seeded history (multi-operation transactions that read/pop what they wrote, operations that are no-ops at commit, failing/rolled-back/oversized transactions, reads of missing buckets; all structures in KeyVal, KV in KeyOnly and sparse) with 2-4 Close/Open points; " +
+		Rule: "[also: 1 case in 16 is a large-geometry history (segments of 9-330 KB: >1000 live records in one segment, or values of 1-69 KB around the 4 KiB and 64 KiB marks and with whole pages of zero bytes; Merge and reopen twice, compared with the model); 1 in 8 histories changes SegmentSize at every reopen; 1 in 8 runs - lists included - on a handle that merged before the history] case = unconstrained seeded history (multi-operation transactions that read/pop what they wrote, operations that are no-ops at commit, failing/rolled-back/oversized transactions, reads of missing buckets; all structures in KeyVal, KV in KeyOnly and sparse) with 2-4 Close/Open points; " +
 			"oracle: full observation of every bucket/structure just before Close == the one just after Open with the same options (self-comparison, no model); non-trivial = >=6 distinct operation kinds and a rotation; distinct by configuration+history hash",
 		Assumptions: []string{"the universe of buckets/keys read by the observation covers everything the history can write"},
 		Floor: func(t string, a map[string]int64) string {
